@@ -73,6 +73,17 @@ def translate(ctx: Ctx) -> Dict[str, Any]:
                 and any(isinstance(b, ast.Return) for b in n.body))
     marks_begun = any(isinstance(n, ast.Assign) and ast.unparse(n.targets[0]) == 'self._auth_begun_username'
                       for n in ast.walk(fin))
+    # a superseded request's task (possibly still inside the application's begin_auth) is cancelled, and the user
+    # for whom authentication was begun is forgotten once the configuration is reloaded for another request
+    cancels_task = any(isinstance(n, ast.Call) and ast.unparse(n.func) == 'self._auth_request_task.cancel'
+                       for n in ast.walk(req))
+    resets_begun = False
+    for n in ast.walk(fin):
+        if isinstance(n, ast.If) and ast.unparse(n.test) == 'begin_auth':
+            body_src = [ast.unparse(b) for b in n.body]
+            i_reset = next((i for i, b in enumerate(body_src) if b.replace(' ', '') == 'self._auth_begun_username=None'), None)
+            i_reload = next((i for i, b in enumerate(body_src) if 'reload_config' in b), None)
+            resets_begun = i_reset is not None and i_reload is not None and i_reset < i_reload
     if 'create_task' not in req_src or '_finish_userauth' not in req_src:
         raise T.Untranslatable('_process_userauth_request no longer hands over to _finish_userauth')
     out = T.header('C05', ['asyncssh/connection.py (_process_userauth_request, _finish_userauth)'])
@@ -80,10 +91,12 @@ def translate(ctx: Ctx) -> Dict[str, Any]:
     out += f'/-- a new USERAUTH_REQUEST cancels the auth object in progress -/\ndef abortsPrevious : Bool := {T.lean_bool(aborts)}\n'
     out += f'/-- begin_auth is skipped only for the user it completed for -/\ndef beginTestIsBegun : Bool := {T.lean_bool(begin_by_begun and marks_begun)}\n'
     out += f'/-- how many times _finish_userauth re-checks that its request is still the latest -/\ndef staleChecks : Nat := {stale}\n'
+    out += f'/-- the task of a superseded request is cancelled -/\ndef cancelsSuperseded : Bool := {T.lean_bool(cancels_task)}\n'
+    out += f'/-- `_auth_begun_username` is cleared before the configuration is reloaded for a request -/\ndef resetsBegunOnReload : Bool := {T.lean_bool(resets_begun)}\n'
     out += '\nend AsyncsshModel.Gen.C05\n'
     changed = vlib.write_if_changed(vlib.module_path('AsyncsshModel.Gen.C05'), out)
     return {'gen_file': 'Gen/C05.lean', 'changed': changed, 'abortsPrevious': aborts, 'beginTestIsBegun': begin_by_begun and marks_begun,
-            'staleChecks': stale}
+            'staleChecks': stale, 'cancelsSuperseded': cancels_task, 'resetsBegunOnReload': resets_begun}
 
 
 _KEYS: List[Any] = []
@@ -546,6 +559,13 @@ CORPUS = [
      ['req:1:pkprobe:1', 'begin:0', 'val:0', 'req:2:pksig1:1', 'begin:1', 'val:1']),
     ({'async': False, 'peruser': True, 'noauth': [], 'pw': [], 'key': [(1, 1)]},
      ['req:1:none:0', 'req:2:pksig1:1', 'val:0']),
+    # a superseded begin_auth must not install its user's keys after authentication moved on (third form of F1)
+    ({'async': True, 'peruser': True, 'noauth': [], 'pw': [], 'key': [(1, 1)]},
+     ['req:1:none:0', 'req:3:pksig1:1', 'begin:0', 'begin:1', 'val:0']),
+    ({'async': True, 'peruser': True, 'noauth': [], 'pw': [], 'key': [(1, 1)]},
+     ['req:1:none:0', 'req:3:pksig1:1', 'begin:1', 'begin:0', 'val:0']),
+    ({'async': True, 'peruser': True, 'noauth': [], 'pw': [], 'key': [(1, 0), (3, 1)]},
+     ['req:3:unknown:0', 'begin:0', 'req:1:pksig1:0', 'req:3:pkprobe:1', 'begin:1', 'val:0']),
     ({'async': False, 'noauth': [], 'pw': [], 'key': []}, ['info:0']),
     ({'async': False, 'noauth': [], 'pw': [(1, 1)], 'key': []}, ['req:1:password:1', 'val:0', 'info:0']),
 ]
